@@ -171,13 +171,13 @@ func TestStandalone(t *testing.T) {
             for trim in (False, True):
                 binp = os.path.join(workdir, "bb_%s_%s.test" % (pkgdir.replace("/", "_"), trim))
                 cmd = ["go", "test", "-c", "-vet=off", "-o", binp] + (["-trimpath"] if trim else []) + ["./" + pkgdir]
-                p = subprocess.run(cmd, cwd=mod, env=env, stdout=subprocess.PIPE, stderr=subprocess.STDOUT, text=True)
+                p = subprocess.run(cmd, cwd=mod, env=env, stdout=subprocess.PIPE, stderr=subprocess.STDOUT, text=True, timeout=900)
                 if p.returncode != 0:
                     fails.append({"msg": "black-box build failed: " + p.stdout[-800:]})
                     continue
                 for cwd in ([os.path.join(mod, pkgdir), other] if not trim else [os.path.join(mod, pkgdir)]):
                     wipe()
-                    p = subprocess.run([binp, "-test.count=1"], cwd=cwd, env=env, stdout=subprocess.PIPE, stderr=subprocess.STDOUT, text=True)
+                    p = subprocess.run([binp, "-test.count=1"], cwd=cwd, env=env, stdout=subprocess.PIPE, stderr=subprocess.STDOUT, text=True, timeout=900)
                     runs += 1
                     got = created()
                     exp = expected(pkgdir)
@@ -187,7 +187,7 @@ func TestStandalone(t *testing.T) {
                                        [os.path.relpath(g, workdir) for g in got], [os.path.relpath(e, workdir) for e in exp]),
                                       "stdout": p.stdout[-600:]})
                     # a second run from the same place must find everything (no new files)
-                    p2 = subprocess.run([binp, "-test.count=1"], cwd=cwd, env=env, stdout=subprocess.PIPE, stderr=subprocess.STDOUT, text=True)
+                    p2 = subprocess.run([binp, "-test.count=1"], cwd=cwd, env=env, stdout=subprocess.PIPE, stderr=subprocess.STDOUT, text=True, timeout=900)
                     runs += 1
                     if created() != got or p2.returncode != 0:
                         fails.append({"msg": "package %s: second run did not find the snapshots of the first" % pkgdir, "stdout": p2.stdout[-600:]})
